@@ -135,7 +135,8 @@ impl IndexMapSubsetPlan {
             .map(DeltaSetIndexMap::entry_format)
             .unwrap_or(EntryFormat::from_bits_truncate(1));
 
-        this.outer_bit_count = (entry_format.entry_size() * 8) - entry_format.bit_count();
+        this.outer_bit_count =
+            (entry_format.entry_size() * 8).saturating_sub(entry_format.bit_count());
         this.max_inners.resize(inner_sets.len(), 0);
 
         let mut last_gid = None;
